@@ -225,9 +225,10 @@ def gen_layout(rng, kind, big=False):
     if kind == "t2":
         units = rng.choice([6, 6, 12, 18, 32, 40, 62] + ([110, 127, 128, 200, 255] if big else [62]))
         end = 16 + units * 8
-        extra = rng.choice([0, 0, 8, 16, 32])
+        extra = rng.choice([0, 0, 4, 8, 12, 16, 20, 32])
         phys = end + extra
-        phys += (-phys) % 16      # 16-byte READ never rolls over (roll-over is covered separately)
+        if rng.random() < 0.7:
+            phys += (-phys) % 16  # otherwise the last 16-byte READ rolls over to page 0 (as real tags do)
         mem = bytearray(rng.randrange(256) for _ in range(phys))
         mem[12:16] = bytes([0xE1, 0x10, units, 0x00])
         o = 16
